@@ -141,6 +141,18 @@ CHECKS.update({
             "equals what those defects produce exactly", "DESIGN.md 4 C05"),
 })
 
+CHECKS.update({
+    "C18": ("Hypothesis generated fault injection into configs; differential oracle (run with faults vs each healthy test alone)",
+            "Healthy configs get 1-4 faulty entries of every stated kind (unknown module / test, rejected parameters, "
+            "missing time / depth / position input, absent stream id, callable that raises) inserted at generated positions "
+            "(also before healthy tests and before healthy streams); on PandasStream, NumpyStream(dict), XarrayStream and "
+            "NetcdfStream the collected results must equal, key by key and flag by flag, the union of running each "
+            "runnable entry alone, entries that cannot run (decided by an independent direct call) must contribute no "
+            "key, and nothing may raise.",
+            "windows closed with cut points strictly between rows; fault kinds limited to those the statement lists",
+            "DESIGN.md 4 C18"),
+})
+
 NOT_APPLICABLE = {}
 
 
@@ -159,7 +171,7 @@ def main():
             "evidence_file": f"evidence/{pid}.json",
             "replay_cmd_template": f"./check {pid} --replay {{path}}",
             "engine": "vf",
-            "level_claimed": {"category": "exploration", "text": text, "design_ref": ref},
+            "level_claimed": {"category": "fault_enumeration" if pid == "C18" else "exploration", "text": text, "design_ref": ref},
             "level_note": note,
             "technique": tech,
         })
